@@ -14,6 +14,8 @@ import Hive.Cycle
 import Hive.Dispatch
 import Hive.Router
 import Hive.EventLedger
+import Hive.Lookup
+import Hive.Layout
 
 open Lean Hive
 
@@ -153,6 +155,33 @@ def handleTransition (st : DState) (j : Json) : Except String Json := do
       pure (Json.mkObj [("diff", strs d0), ("mon", strs (monitorAll env post ++ viol04 cap post))])
 
 /-- function-level record: `traverse(route, dt)` -/
+structure Moved where
+  state : String
+  pos : Pos
+  km : Rat
+  route : Route
+  deriving FromJson
+
+/-- what `vehicle_state_ops.move` must leave behind for a vehicle with energy that stood at the
+    start of `route` with odometer 0: `(position, odometer, stored route)` - the expression of
+    `Hive.move` for this case -/
+def movedTo (route : Route) (tr : Traversal) : Option (Pos × Rat × Route) :=
+  match route.head?, tr.experienced.getLast? with
+  | some first, none => some (⟨first.id, first.start⟩, 0, [])
+  | some _, some last => some (⟨last.id, last.stop⟩, tr.km, tr.remaining)
+  | none, _ => none
+
+def violMoved (route exp rem : Route) (km : Rat) (m : Moved) : List String :=
+  match movedTo route { experienced := exp, remaining := rem, km := km } with
+  | none => []
+  | some (pos, odo, stored) =>
+    (if m.pos.cell == pos.cell then [] else
+      [s!"C06/junction| after the step the vehicle stands at cell {m.pos.cell}; the junction between the driven and the remaining part of its route is {pos.cell}"]) ++
+    (if m.pos.link == pos.link then [] else
+      [s!"C06/junction| after the step the vehicle is on link {m.pos.link}; the last link it drove on is {pos.link}"]) ++
+    (if m.km == odo then [] else [s!"C06/odometer| the odometer advanced by {Val.show (.q m.km)} km, the distance covered is {Val.show (.q odo)} km"]) ++
+    (if m.route == stored then [] else [s!"C06/route-kept| the route stored on the vehicle is not the remaining part of the traversal"])
+
 def handleTraverse (j : Json) : Except String Json := do
   let oracle : Oracle ← optField j "oracle" {}
   let route : Route ← getField j "route"
@@ -167,7 +196,17 @@ def handleTraverse (j : Json) : Except String Json := do
     let cellKm : Rat ← optField j "cellKm" (6 / 10000)
     let d := diffFlat (flatRoute "experienced" tr.experienced ++ flatRoute "remaining" tr.remaining ++ [("km", .q tr.km)])
                       (flatRoute "experienced" exp ++ flatRoute "remaining" rem ++ [("km", .q km)])
-    pure (Json.mkObj [("diff", strs d), ("mon", strs (violTraversal route dt exp rem km cellKm))])
+    let moved : Option Moved ← optField j "moved" none
+    let (d2, m2) := match moved with
+      | none => ([], [])
+      | some m =>
+        ((match movedTo route tr with
+          | some (pos, odo, stored) =>
+            (if m.pos == pos then [] else [s!"move: position model={repr pos} impl={repr m.pos}"]) ++
+            (if ratAbs (m.km - odo) ≤ absTol odo then [] else [s!"move: odometer model={Val.show (.q odo)} impl={Val.show (.q m.km)}"]) ++
+            (if diffFlat (flatRoute "stored" stored) (flatRoute "stored" m.route) == [] then [] else ["move: stored route differs"])
+          | none => []), violMoved route exp rem km m)
+    pure (Json.mkObj [("diff", strs (d ++ d2)), ("mon", strs (violTraversal route dt exp rem km cellKm ++ m2))])
   | .error, "error" => pure (Json.mkObj [("diff", strs []), ("mon", strs [])])
   | m, k => pure (Json.mkObj [("diff", strs [s!"outcome: model={m.kind} impl={k}"]), ("mon", strs [])])
 
@@ -200,8 +239,10 @@ def handleTimed (st : DState) (j : Json) : Except String Json := do
       diffs := diffs ++ [s!"step {k} prices: {bad.length} differ, first: model={repr (bad.head?.map (·.1))} impl={repr (bad.head?.map (·.2))}"]
     k := k + 1
   let initial := (Timed.observe { sim := sim, log := [] }).prices
-  let mon := Timed.violClock sim.time sim.dt obs ++ Timed.violRequests cfg sim.time sim.dt picks rows obs ++
-    Timed.violPrices names sim.time sim.dt prices initial obs
+  let inOrder : Bool ← optField j "inOrder" true
+  -- the closed form of C11 speaks about files sorted by departure time; the ledger statement of C03 does not care
+  let mon := Timed.violClock sim.time sim.dt obs ++ (if inOrder then Timed.violRequests cfg sim.time sim.dt picks rows obs else []) ++
+    Timed.violResolved picks obs ++ Timed.violPrices names sim.time sim.dt prices initial obs
   pure (Json.mkObj [("diff", strs (diffs.take 12)), ("mon", strs (mon.take 12))])
 
 deriving instance FromJson for Shift.Entry
@@ -426,10 +467,16 @@ def handleMech (j : Json) : Except String Json := do
        (if post.level - pre.level > bound + absTol bound then [s!"C04/charge-exceeds-plug| charging added {Val.show (.q (post.level - pre.level))}, the plug delivers at most {Val.show (.q bound)} in this step"] else []))
   pure (Json.mkObj [("diff", strs d), ("mon", strs mon)])
 
+deriving instance FromJson for Lookup.AtObs
+deriving instance FromJson for Lookup.SearchObs
+deriving instance FromJson for Lookup.NearObs
+deriving instance FromJson for Lookup.Obs
+
 structure CollSnap where
   ents : List (Nat × Cell)
   loc : CollDict
   search : CollDict
+  lookups : Option Lookup.Obs := none
   deriving FromJson
 
 structure CollStep where
@@ -477,8 +524,46 @@ def handleColl (j : Json) : Except String Json := do
       c := { ents := st.after.ents.map (fun (i, cl) => ⟨i, cl, 0⟩), ix := implIx }
     if !(implIx.ok parent st.after.ents) then
       mons := mons ++ [s!"C08/index-after-{st.op}| step {k} {st.op} {st.id}: the implementation's index maps disagree with its entities"]
+    match st.after.lookups with
+    | some lk =>
+      -- the read side: the model's lookups on the model's state, and the statement on the observed answers
+      let ents := sortBy (fun a b => decide (a.1 ≤ b.1)) (c.ents.map fun e => (e.id, e.cell))
+      diffs := diffs ++ ((Lookup.diff c.ix ents lk).take 3).map (fun x => s!"step {k} {st.op} {st.id}: {x}")
+      mons := mons ++ ((Lookup.viol parent st.after.ents lk).take 3).map (fun x => s!"{x} (after step {k} {st.op} {st.id})")
+    | none => pure ()
     k := k + 1
   pure (Json.mkObj [("diff", strs diffs), ("mon", strs mons)])
+
+deriving instance FromJson for Layout.StationRow
+deriving instance FromJson for Layout.BaseRow
+
+/-- the initial layout: the stations and bases files loaded by the real initialisation, next to the
+    model of the loaders; every state invariant evaluated on the loaded state -/
+def handleLayout (st : DState) (j : Json) : Except String Json := do
+  let simO : Option Sim ← optField j "sim" none
+  let parentTbl : List (Cell × Cell) ← optField j "parent" []
+  let rows : List Layout.StationRow ← getField j "rows"
+  let bases : List Layout.BaseRow ← getField j "bases"
+  let catTbl : List (ChargerId × Bool × Rat) ← getField j "catalogue"
+  let env := ({ parent := parentTbl } : Oracle).env st.mechs
+  let cat (c : ChargerId) : Option (Bool × Rat) := (catTbl.find? (fun p => p.1 == c)).map (·.2)
+  let flat (sts : List Station) : List String :=
+    (sortBy (fun (a b : Station) => decide (a.id ≤ b.id)) sts).map fun x =>
+      let plugs := (sortBy (fun (a b : ChargerState) => decide (a.id ≤ b.id)) x.plugs).map fun c =>
+        s!"{c.id}:{c.electric}:{c.rate}:{c.total}:{c.avail}:{c.price}:{c.enq}"
+      s!"station {x.id} cell {x.pos.cell} plugs {plugs} onShift {sortBy (fun a b => decide (a ≤ b)) x.onShift}"
+  match Layout.loadStations cat rows [], simO with
+  | none, none => pure (Json.mkObj [("diff", strs []), ("mon", strs [])])
+  | none, some _ => pure (Json.mkObj [("diff", strs ["model: the load stops at a plug type the catalogue lacks; impl loaded a state"]), ("mon", strs [])])
+  | some _, none => pure (Json.mkObj [("diff", strs ["impl: the load raised; the model loads the stations"]), ("mon", strs [])])
+  | some ms, some sim =>
+    let a := flat ms
+    let b := flat sim.stations
+    let d := if a == b then [] else
+      ((a.zip b).filter (fun p => p.1 != p.2)).map (fun p => s!"model={p.1} impl={p.2}") ++
+      (if a.length != b.length then [s!"stations: model={a.length} impl={b.length}"] else [])
+    let mon := monitorAll env sim ++ Layout.viol rows bases sim
+    pure (Json.mkObj [("diff", strs (d.take 6)), ("mon", strs (mon.take 10))])
 
 def handle (st : DState) (line : String) : DState × Json :=
   match Json.parse line with
@@ -547,6 +632,10 @@ def handle (st : DState) (line : String) : DState × Json :=
         let mon := (if vs.eraseDups.length == vs.length then [] else ["C09/two-per-vehicle| two instructions for one vehicle reach apply_instructions"]) ++
           overruled.map fun d => s!"C09/driver-overruled| the driver of vehicle {d.vehicle} issued {reprStr d} but another instruction reaches apply_instructions for that vehicle"
         pure (Json.mkObj [("diff", strs d), ("mon", strs mon)]) : Except String Json) with
+      | .ok r => (st, withId r)
+      | .error e => (st, withId (Json.mkObj [("error", Json.str e)]))
+    | "layout" =>
+      match handleLayout st j with
       | .ok r => (st, withId r)
       | .error e => (st, withId (Json.mkObj [("error", Json.str e)]))
     | "coll" =>
